@@ -178,6 +178,31 @@ def getDelimitedKeyword (fuel : Nat) (delims : Bytes) (s : Bytes) : Outcome (Byt
   | .crash => .crash
   | .outOfFuel => .outOfFuel
 
+/-- `sectionReader::findNormalString( str )` for a one-character `str` (`"("`, `"="`): white space, string literals and comments are
+    skipped, the stream is left after the first `needle` outside them; `.fail` = the stream ends first (returns -1) -/
+def findOne (needle : Char) : Nat → Bytes → Outcome Bytes
+  | 0, _ => .outOfFuel
+  | f + 1, s =>
+    match skipWS s with
+    | [] => .fail
+    | c :: r =>
+      let r1 := if c == '\'' then strRest (c :: r) else r
+      let r2 : Outcome Bytes := if c == '/' && r1.head? == some '*' then skipComment f r1 else .ok r1
+      match r2 with
+      | .ok r3 => if c == needle then .ok r3 else findOne needle f r3
+      | .fail => .fail
+      | .crash => .crash
+      | .outOfFuel => .outOfFuel
+
+/-- how `sectionReader::getRealInstance` positions the stream for `STEPread`: `seekg( begin ); findNormalString( "(" );` and one
+    character back.  The argument is the file from the recorded offset `begin`; the result is what `STEPread` is handed -/
+def stepReadInput (fuel : Nat) (atBegin : Bytes) : Outcome Bytes :=
+  match findOne '(' fuel atBegin with
+  | .ok r => .ok ('(' :: r)
+  | .fail => .fail
+  | .crash => .crash
+  | .outOfFuel => .outOfFuel
+
 /-- `sectionReader::seekInstanceEnd`: `depth` = `parenDepth`, `refs` newest first -/
 def seekEnd : Nat → Int → List Nat → Bytes → Outcome (List Nat × Bytes)
   | 0, _, _, _ => .outOfFuel
